@@ -138,6 +138,13 @@ theorem C12.pydict_union_witness :
   have := h [("k", some 1), ("a", some 8)]
   revert this; decide
 
+/-- the spec's union is what the property text says: no two rows of it are equal (up to column order and nulls), it
+contains only rows of `L ++ R`, and every row of `L ++ R` is represented -/
+theorem C12.union_is_duplicate_free_concat (L R : Table) :
+    (Rel.union L R).Pairwise (fun a b => ¬ RowEq a b) ∧ (∀ y ∈ Rel.union L R, y ∈ L ++ R) ∧
+      (∀ x ∈ L ++ R, ∃ y ∈ Rel.union L R, RowEq y x) :=
+  union_spec L R
+
 /-- pandas: `drop_duplicates` after `concat` is the spec's union of the null-padded tables -/
 theorem C12.pandas_union_is_dedup (lk rk ls rs : List Col) (L R : Table) :
     PandasMerge.merge .union lk rk ls rs L R = .ok (dedup (PandasSem.concat ls rs L R)) := rfl
@@ -229,6 +236,11 @@ theorem C12.arrow_sem_right_same_keys (ks : List Col) (hks : ks ≠ []) (ls rs :
     (hkl : ∀ c ∈ ks, c ∈ ls) (hkr : ∀ c ∈ ks, c ∈ rs) (L R : Table) (wfL : RowsWF L) (wfR : RowsWF R) :
     ∃ out, ArrowMerge.merge .right ks ks ls rs L R = .ok out ∧ TableEq out (joinSpec .right ks ks ls rs L R) :=
   arrow_right_tableEq hks hkl hkr wfL wfR
+
+theorem C12.arrow_sem_outer_same_keys (ks : List Col) (hks : ks ≠ []) (hnd : ks.Nodup) (ls rs : List Col)
+    (hkl : ∀ c ∈ ks, c ∈ ls) (hkr : ∀ c ∈ ks, c ∈ rs) (L R : Table) (wfR : RowsWF R) :
+    ∃ out, ArrowMerge.merge .outer ks ks ls rs L R = .ok out ∧ TableEq out (joinSpec .outer ks ks ls rs L R) :=
+  arrow_outer_tableEq hks hnd hkl hkr wfR
 
 /-- differently named single keys, RIGHT join: the left key column is lost and the helper column `mloda_right_index`
 leaks into the result -/
